@@ -15,7 +15,8 @@ func init() {
 // service (untainted + newly requested) is sufficient and at most one above
 // the minimum, including the scale-from-zero cases.
 // shape: [mode (0 utilisation, 1 from zero with cached node size, 2 from zero, nothing cached,
-//         3 from zero after the node size changed between two earlier scans), nodes, tainted nodes, failure budget]
+//
+//	3 from zero after the node size changed between two earlier scans), nodes, tainted nodes, failure budget]
 func VerifHarness_C05_scan() {
 	mode, N, TN, F := verifShape(0), verifShape(1), verifShape(2), verifShape(3)
 	w := newWorld(0)
